@@ -110,7 +110,9 @@ func (x *exec) dnsCase() {
 	}
 	ctx, cancel := context.WithTimeout(context.Background(), 15*time.Second)
 	defer cancel()
-	good := dnsUpstream()
+	// what the upstream says after the hostile reply: proper records, or (one concretisation in three) no records
+	empty := x.rnd.Intn(3) == 0
+	good := dnsUpstreamOpt(empty)
 	var dials atomic.Int32
 	realUDP := x.c.Ep == "dnsudp" && x.k == 0
 	tcpClient := &fakeInner{name: "dns-hostile", native: true, next: func(a conn.Addr, payload []byte) (netio.Conn, error) {
@@ -147,7 +149,7 @@ func (x *exec) dnsCase() {
 					first = false
 					_, _ = pc.WriteToUDPAddrPort(msg, from)
 				}
-				if a := dnsAnswer(buf[:n]); a != nil {
+				if a := dnsAnswerOpt(buf[:n], empty); a != nil {
 					_, _ = pc.WriteToUDPAddrPort(a, from)
 				}
 			}
